@@ -82,6 +82,32 @@ def cases(rng, tier):
             ref = f"{e(1)} ({e(a)} {e(b)} ㅁㄹㅎㄷ) ㅎㄴ"
             var = f"{P(1)} ({e(a)} {e(b)} ㅁㄹㅎㄷ) ㅎㄴ"
         yield Case(program=ref, variants=(var,), tag=f'spelling{c}')
+    # (3) zero has spellings of *both* parities (ㄱ, ㄱㄱ, ㄱㄱㄱ, …: −0 = 0): every role in which a zero can stand
+    for z in ["ㄱ" * m for m in range(2, 8 if tier == 'quick' else 14)]:
+        e = gen.enc
+        a, b = rng.randint(-50, 50), rng.randint(-50, 50)
+        roles = {
+            'value': f"{e(a)} {{z}} ㄷ ㅎㄷ",
+            'arity-closure': f"{e(a)} ㅎ ㅎ{{z}}",
+            'arity-builtin': f"ㅁㄹ ㅎ{{z}}",
+            'arity-nested': f"({e(a)} ㅎ ㅎ{{z}}) (ㅁㅈ ㅎ{{z}}) ㅁㄹ ㅎㄷ",
+            'argpos': f"{e(a)} {e(b)} ({{z}} ㅇㄱ ㅎ) ㅎㄷ",
+            'argnest': f"{e(a)} {e(b)} (ㄴㅇ{{z}} ㅎ) ㅎㄷ",
+            'argnest-outer': f"{e(b)} ({e(a)} (ㄱㅇㄴ ㄱㅇ{{z}} ㄷㅎㄷ ㅎ ㅎ) ㅎㄴ) ㅎㄴ",
+            'funref': f"({{z}} ㅇ ㅎ) ㅎㄱ",
+            'builtin-name': f"{e(a)} {e(b)} {{z}} ㅎㄷ",                      # ㄱ = multiplication
+            'list-index': f"{{z}} ({e(a)} {e(b)} ㅁㄹㅎㄷ) ㅎㄴ",
+            'module-path': f"{e(a)} {e(b)} (ㅂ ㅂㄷ {{z}} ㅂㅎㄹ) ㅎㄷ",
+        }
+        for role, tpl in roles.items():
+            if tpl is None:
+                continue
+            yield Case(program=tpl.replace("{z}", "ㄱ"), variants=(tpl.replace("{z}", z),), tag=f'zero-{role}')
+        # file command ㄱ (truncate at the current position) on a real file
+        from . import c14
+        tp = c14.program("z.bin", 'w+', [('write', b'abcdefg'), ('seek', 3), ('trunc',), ('close',)])
+        assert "ㄱ ㄱㅇㄷ ㅎㄴ" in tp
+        yield Case(program=tp, variants=(tp.replace("ㄱ ㄱㅇㄷ ㅎㄴ", f"{z} ㄱㅇㄷ ㅎㄴ"),), tag='zero-filecmd', compare_fs=True)
     # file mode / command spellings on a real scratch file
     for k in (1, 2):
         P = lambda w: pad(w, k)
@@ -104,7 +130,7 @@ SPEC = {
     'rule': 'parse_number / encode_number: exhaustive |n| ≤ 2^11 (quick) / 2^16 (thorough), all digit words up to '
             'length 4 / 6, 200 random integers up to 2^4096, powers of 8 ± 1; programs in which one literal is replaced by '
             'a zero-padded spelling in each role (value, arity, nesting index, function reference, built-in name, module '
-            'path, file mode / command, list index) must behave identically; non-trivial = multi-digit word / |n| > 7',
+            'path, file mode / command, list index) must behave identically; every spelling of zero of either parity (ㄱㄱ … ㄱ×7 / ×13) in every role where a zero can stand (value, closure / built-in arity, argument position, nesting index, function reference, built-in name, list index, module path, file command); non-trivial = multi-digit word / |n| > 7',
     'trusted': ["the harness's own reading of docs/spec.md:31-44 (py_parse) used as the monitor's oracle"],
     'assumptions': [],
 }
